@@ -59,6 +59,24 @@ def is_dispatch_raise(ctx, f, nd):
                     return True
         if is_call(atom, 'builtins.isinstance') and not pol:
             return True
+    # decided by evaluation: the raise is reachable neither when type(x) is str nor when it is int
+    from ..finite import feval, UNKNOWN
+    conds = ctx.conds(f, nd)
+    if any(is_call(x, 'builtins.type') for a_, p_ in conds for x in walk_term(a_)):
+        def reachable(T):
+            def at(x):
+                if is_call(x, 'builtins.type'):
+                    return T
+                if x[0] == 'g' and x[1] in ('builtins.str', 'builtins.int', 'builtins.float', 'builtins.list', 'builtins.bytes'):
+                    return {'str': str, 'int': int, 'float': float, 'list': list, 'bytes': bytes}[x[1].split('.')[-1]]
+                return UNKNOWN
+            for a_, p_ in conds:
+                v = feval(a_, at)
+                if v is not UNKNOWN and bool(v) != p_:
+                    return False
+            return True
+        if not reachable(str) and not reachable(int):
+            return True
     return False
 
 
